@@ -26,7 +26,7 @@ func connCmd(args []string) int {
 	setKnown(*kn)
 	e := NewEmitter(*outp+".ops", *outp+".exp")
 	st := NewStats("conn", *seed)
-	st.Rule = "random sequences on one connection of: UPDATE s3db_conn (deadline and/or write_time: a value, NULL, '' , malformed, or not mentioned), BEGIN/COMMIT/ROLLBACK, INSERTs (whose stored write time is read back from the tree), s3db_refresh (allowed or refused), SELECT * FROM s3db_conn; write_time values include well-formed times outside 1677..2262; the outcome of every UPDATE, every read-back and the stamp of every statement (explicit value, or a clock reading and whether it equals the previous statement's) are compared with the Lean connection model; non-trivial = contains a transaction and an attribute change; distinct = distinct sequence"
+	st.Rule = "random sequences on one connection of: UPDATE s3db_conn (deadline and/or write_time: a value, NULL, '' , malformed, or not mentioned), BEGIN/COMMIT/ROLLBACK, INSERTs into the table or into a second table of the connection (whose stored write time is read back from the tree), s3db_refresh (allowed or refused), SELECT * FROM s3db_conn; write_time values include well-formed times outside 1677..2262; the outcome of every UPDATE, every read-back and the stamp of every statement (explicit value, or a clock reading and whether it equals the previous statement's) are compared with the Lean connection model; non-trivial = contains a transaction and an attribute change; distinct = distinct sequence"
 	root := gen.New(*seed)
 	for ci := 0; ci < *n; ci++ {
 		r := root.Fork(ci)
@@ -39,8 +39,16 @@ func connCmd(args []string) int {
 			st.Fail(id, err.Error(), nil)
 			continue
 		}
+		// a second table on the connection: a transaction that has written to it only has fixed the write
+		// time without making the first table dirty (what tells F58's refusal from the dirty-tree refusal)
+		lname := "l" + sqlh.Uniq()
+		if err := sqlh.Exec(db, sqlh.CreateSQL(sqlh.TableOpts{Name: lname, Bucket: b, Prefix: "log", Columns: "k primary key, a"})); err != nil {
+			st.Fail(id, err.Error(), nil)
+			continue
+		}
 		e.Op("conn reset", "ok")
 		inTx, begun := false, false
+		begunOn := map[string]bool{}
 		var lastStamp int64 = -1
 		nextKey := 0
 		explicit := map[string]string{} // rendered time -> model int
@@ -53,6 +61,15 @@ func connCmd(args []string) int {
 				return m
 			}
 			return "clock"
+		}
+		refresh := func() {
+			_, err := sqlh.Query(db, "select s3db_refresh(?)", tname)
+			res := "ok"
+			if err != nil {
+				res = "err"
+			}
+			e.Op("conn refresh", res)
+			st.Count("refresh_" + res)
 		}
 		for i := 0; i < 10+r.Intn(25); i++ {
 			switch op := r.Intn(12); {
@@ -108,6 +125,7 @@ func connCmd(args []string) int {
 			case op < 6 && !inTx:
 				sqlh.Exec(db, "begin")
 				inTx, begun = true, false
+				begunOn = map[string]bool{}
 				st.Count("begin")
 				hadTx = true
 			case op < 8 && inTx:
@@ -118,29 +136,27 @@ func connCmd(args []string) int {
 				}
 				st.Count("end")
 			case op == 8 && r.Intn(2) == 0: // s3db_refresh: refused under a write time fixed at BEGIN, and over uncommitted rows
-				_, err := sqlh.Query(db, "select s3db_refresh(?)", tname)
-				res := "ok"
-				if err != nil {
-					res = "err"
-				}
-				e.Op("conn refresh", res)
-				st.Count("refresh_" + res)
+				refresh()
 			case op < 10: // a statement
-				if inTx && !begun {
-					// SQLite calls xBegin when the table is first written in the transaction
+				target, opName := tname, "conn stmt"
+				if r.Intn(3) == 0 {
+					target, opName = lname, "conn stmt other"
+				}
+				if inTx && !begunOn[target] {
+					// SQLite calls xBegin of a table when the table is first written in the transaction
 					e.Op("conn begin", "ok")
-					begun = true
+					begun, begunOn[target] = true, true
 				}
 				if !inTx {
 					e.Op("conn begin", "ok")
 				}
 				nextKey++
 				time.Sleep(20 * time.Microsecond)
-				if err := sqlh.Exec(db, fmt.Sprintf(`insert into "%s" values(?,?)`, tname), nextKey, "v"); err != nil {
+				if err := sqlh.Exec(db, fmt.Sprintf(`insert into "%s" values(?,?)`, target), nextKey, "v"); err != nil {
 					st.Fail(id, "insert: "+err.Error(), e.CaseOps())
 					break
 				}
-				stamp := entries2(tname, nextKey)
+				stamp := entries2(target, nextKey)
 				exp := ""
 				sec := time.Unix(0, stamp).UTC().Format(s3db.SQLiteTimeFormat)
 				if m, ok := explicit["T:"+fmt.Sprintf("%x", sec)]; ok && stamp%1_000_000_000 == 0 {
@@ -153,7 +169,11 @@ func connCmd(args []string) int {
 					exp = fmt.Sprintf("clock same=%d", same)
 				}
 				lastStamp = stamp
-				e.Op("conn stmt", exp)
+				e.Op(opName, exp)
+				if inTx && target == lname && r.Bool() {
+					// the transaction has fixed its write time; has it written to the first table?
+					refresh()
+				}
 				if !inTx {
 					e.Op("conn end", "ok")
 				}
